@@ -75,6 +75,28 @@ def idsPairwise : List (EthEvent × Str) → Bool
 def batchIdsOK (env : Env) (val : Str) (events : List EthEvent) (ids : List Str) : Bool :=
   idsPairwise ((events.filter (submittable env val)).zip ids)
 
+/-! ### the content the chain derives from the relayed claim -/
+
+/-- The content read back on the chain (what the validators agree on and what is credited), compared field
+    by field with the ORIGINAL Ethereum event: recipient as decoded, amount, token contract, claim type, and the
+    symbol exactly — after the relayer's own documented lowering (lock) / table mapping (burn) only. -/
+def contentFaithful (env : Env) (ev : EthEvent) (k : Content) : Bool :=
+  env.bech32 ev.to = some k.receiver &&
+  k.amount = ev.value &&
+  k.token = addrString ev.token &&
+  k.claimType = ev.claimType &&
+  k.symbol = claimSymbol env ev
+
+/-- what the content of an event must consist of -/
+def expectedContent (env : Env) (ev : EthEvent) : Option Content :=
+  (env.bech32 ev.to).map (fun r =>
+    { receiver := r, amount := ev.value, symbol := claimSymbol env ev, token := addrString ev.token, claimType := ev.claimType })
+
+/-- distinct events ⇒ distinct contents: two events whose content texts coincide agree on recipient, amount,
+    symbol (after the relayer's lowering / mapping), token and claim type -/
+def contentDistinctOK (env : Env) (e₁ e₂ : EthEvent) (text₁ text₂ : Str) : Bool :=
+  text₁ ≠ text₂ || expectedContent env e₁ = expectedContent env e₂
+
 /-! ### Sifchain → Ethereum -/
 
 /-- value of the last attribute with key `k` (the code overwrites: last wins) -/
